@@ -4,8 +4,10 @@ import (
 	"encoding/json"
 	"fmt"
 	"os"
+	"os/exec"
 	"path/filepath"
 	"sort"
+	"strconv"
 	"strings"
 
 	"golang.org/x/tools/go/ssa"
@@ -118,6 +120,16 @@ func report(eng *Engine, prop, tier string, seed int, verif string, results []*f
 					or_.Class = "VIOLATION"
 					nObl++
 					path := writeReplay(replayDir, prop, o, r, prelude, eng)
+					if tf, failed := tryReplay(verif, eng.repoDir, o, strings.TrimSuffix(path, ".txt")); tf != "" {
+						if failed {
+							replayOK[path] = true
+							f, _ := os.OpenFile(path, os.O_APPEND|os.O_WRONLY, 0o644)
+							if f != nil {
+								fmt.Fprintf(f, "\nREPLAYED ON THE REAL CODE: the counter-model input FAILS (%s; output in %s)\n", tf, strings.TrimSuffix(path, ".txt")+"_replay_output.txt")
+								f.Close()
+							}
+						}
+					}
 					suffix := ""
 					if o.Result == nil || o.Result.Status != "sat" || !replayConfirmed(path) {
 						suffix = " no-failing-input-found"
@@ -279,7 +291,127 @@ func trunc(s string, n int) string {
 	return s
 }
 
-func replayConfirmed(path string) bool { return false }
+var replayOK = map[string]bool{}
+
+func replayConfirmed(path string) bool { return replayOK[path] }
+
+// tryReplay instantiates the replay template of the obligation's function (if any) with the
+// parameter values of the solver's counter-model, runs it against the real code through
+// `go test -overlay`, and reports whether the real code fails on that input.
+func tryReplay(verif, repo string, o *Obligation, base string) (string, bool) {
+	if o.Result == nil || o.Result.Status != "sat" || o.Result.Model == "" {
+		return "", false
+	}
+	tmplPath := filepath.Join(verif, "replay", "templates", safeFile(o.Func)+".go.tmpl")
+	tb, err := os.ReadFile(tmplPath)
+	if err != nil {
+		// templates live next to the binary's verif directory (bin/gocv -> ../replay/templates)
+		if exe, e2 := os.Executable(); e2 == nil {
+			tb, err = os.ReadFile(filepath.Join(filepath.Dir(filepath.Dir(exe)), "replay", "templates", safeFile(o.Func)+".go.tmpl"))
+		}
+	}
+	if err != nil {
+		return "", false
+	}
+	vals := modelValues(o.Result.Model)
+	src := string(tb)
+	for {
+		i := strings.Index(src, "{{")
+		if i < 0 {
+			break
+		}
+		j := strings.Index(src[i:], "}}")
+		if j < 0 {
+			return "", false
+		}
+		ph := src[i+2 : i+j]
+		name, kind := ph, "string"
+		if k := strings.Index(ph, ":"); k >= 0 {
+			name, kind = ph[:k], ph[k+1:]
+		}
+		v, ok := vals[name]
+		if !ok {
+			return "", false
+		}
+		lit := v
+		if kind == "string" {
+			lit = strconv.Quote(smtStringValue(v))
+		}
+		src = src[:i] + lit + src[i+j+2:]
+	}
+	// package directory from the template's marker comment
+	dir := "."
+	if k := strings.Index(src, "package dir: "); k >= 0 {
+		rest := src[k+len("package dir: "):]
+		end := strings.IndexAny(rest, ")\n ")
+		if end > 0 {
+			dir = rest[:end]
+		}
+	}
+	testFile := base + "_replay_test.go"
+	os.WriteFile(testFile, []byte(src), 0o644)
+	ov := base + "_overlay.json"
+	target := filepath.Join(repo, dir, "zz_verif_replay_test.go")
+	os.WriteFile(ov, []byte(fmt.Sprintf("{\"Replace\":{%q:%q}}", target, testFile)), 0o644)
+	cmd := exec.Command("go", "test", "-overlay", ov, "-vet=off", "-count=1", "-timeout", "60s", "-run", "TestVerifReplay", "./"+dir)
+	cmd.Dir = repo
+	cmd.Env = append(os.Environ(), "GOFLAGS=-mod=mod", "GOPROXY=off", "GOSUMDB=off", "GOTOOLCHAIN=local")
+	out, rerr := cmd.CombinedOutput()
+	os.WriteFile(base+"_replay_output.txt", out, 0o644)
+	failed := rerr != nil && (strings.Contains(string(out), "--- FAIL") || strings.Contains(string(out), "panic:"))
+	return testFile, failed
+}
+
+// modelValues extracts the values of constants from a (get-model) answer.
+func modelValues(m string) map[string]string {
+	out := map[string]string{}
+	lines := strings.Split(m, "\n")
+	for i := 0; i < len(lines); i++ {
+		t := strings.TrimSpace(lines[i])
+		if !strings.HasPrefix(t, "(define-fun ") {
+			continue
+		}
+		f := strings.Fields(t)
+		if len(f) < 4 || f[2] != "()" {
+			continue
+		}
+		name := f[1]
+		// value is the rest of this line after the sort, or the next line
+		rest := ""
+		if idx := strings.Index(t, f[3]); idx >= 0 {
+			rest = strings.TrimSpace(t[idx+len(f[3]):])
+		}
+		if rest == "" && i+1 < len(lines) {
+			rest = strings.TrimSpace(lines[i+1])
+		}
+		rest = strings.TrimSuffix(rest, ")")
+		out[name] = strings.TrimSpace(rest)
+	}
+	return out
+}
+
+// smtStringValue decodes an SMT-LIB string literal.
+func smtStringValue(lit string) string {
+	lit = strings.TrimSpace(lit)
+	if len(lit) >= 2 && lit[0] == '"' {
+		lit = lit[1 : len(lit)-1]
+	}
+	lit = strings.ReplaceAll(lit, "\"\"", "\"")
+	var b strings.Builder
+	for i := 0; i < len(lit); i++ {
+		if strings.HasPrefix(lit[i:], "\\u{") {
+			if j := strings.Index(lit[i:], "}"); j > 0 {
+				if n, err := strconv.ParseInt(lit[i+3:i+j], 16, 32); err == nil {
+					b.WriteRune(rune(n))
+					i += j
+					continue
+				}
+			}
+		}
+		b.WriteByte(lit[i])
+	}
+	return b.String()
+}
 
 // writeReplay stores what is needed to re-examine a failed obligation.
 func writeReplay(dir, prop string, o *Obligation, r *fres, prelude string, eng *Engine) string {
